@@ -758,6 +758,9 @@ def _schema_flushes(m):
     return out
 
 
+ENTRY_LOOKUP = r"(Entry::<'a, K, V(, A)?>::(or_insert_with|or_insert|or_insert_with_key)|ops::Index::index|(IndexMap::<K, V, S>|BTreeMap::<K, V, A>|HashMap::<K, V, S, A>)::(get|get_mut|get_full))$"
+
+
 def r4_refs_resolve(ctx):
     R = ctx.rule("C06.R4", "every $ref emitted has its target in the document: each Static schema's dependencies are added to `definitions` before its converted schema can be used, "
                  "each Gen schema is generated with the one shared generator, generator definitions and `definitions` are both written to components.schemas on every path, and each "
@@ -852,7 +855,11 @@ def r4_refs_resolve(ctx):
                 ctx.check(R, "gen-arm-rejected:%s" % _role(f), gn_t is None or f.is_diverging(gn_t) or gn_t == st_t, "a Gen schema in this position is rejected loudly (unimplemented!)", (f, sb), nontrivial=False)
     ctx.check(R, "schema-destructuring-sites", nsites >= 5, "places that destructure ApiSchemaGenerator under gen_openapi: %d" % nsites, g, nontrivial=False)
     # error responses
-    ers = [(f, bb, st) for f in m.region for bb, i, st in f.aggregates(r"gen_openapi::ErrorResponse$") if bb in f.reachable(0)]
+    # the carrier of a shared error response, by role: the crate's struct that holds a Response together with the reference to it
+    # (a function-local item of gen_openapi today; a module-level struct with a constructor is the same thing)
+    er_cands = sorted(a for a, d in ds.adts.items() if d.get("local") and d.get("kind") == "struct" and d.get("variants") and
+                      set(["openapiv3::Response", "openapiv3::ReferenceOr<openapiv3::Response>"]) <= set(fld["ty"] for fld in d["variants"][0]["fields"]))
+    ers = [(f, bb, st) for f in m.region for a in er_cands for bb, i, st in f.aggregates("^" + re.escape(a) + "$") if bb in f.reachable(0)]
     ctx.check(R, "error-response-built-once", len(ers) == 1, "construction sites of ErrorResponse: %d" % len(ers), g, nontrivial=False)
     er_adt = None
     for f, bb, st in ers:
@@ -880,9 +887,17 @@ def r4_refs_resolve(ctx):
             v = m.flow.origins(g, vop)
             if (er_adt, "reference") in v.fields:
                 refs.append((bb, kop, v))
+        # the side table of error responses = the map of ErrorResponse entries that the flush above iterates
+        ermaps = set()
+        for x in ins:
+            for fid, l in x["ko"].locals | x["vo"].locals:
+                if fid == g.id and g.local_name(l) and er_adt in (g.local_ty(l) or "") and re.match(r"^(indexmap::IndexMap|std::collections::(BTreeMap|HashMap))<", g.local_ty(l) or ""):
+                    ermaps.add(l)
         covered = set()
         for bb, kop, v in refs:
-            okr = any(c.endswith("or_insert_with") for c in v.calls)
+            # `.reference` of the entry found (or just created) in that very table: entry().or_insert_with(..), or insert-if-absent
+            # followed by `table[key]` / `table.get(key)` — any lookup, as long as it is a lookup in the table that is flushed
+            okr = any(re.search(ENTRY_LOOKUP, c) for c in v.calls) and len(ermaps) == 1 and (g.id, sorted(ermaps)[0]) in v.locals
             kk = m.flow.origins(g, kop)
             rng = sorted(a[1] for a in kk.aggs if a[0] == "openapiv3::StatusCode")
             cls = set()
@@ -1233,6 +1248,12 @@ RULES = [("C06.R1", r1_same_filter), ("C06.R2", r2_unpublished), ("C06.R3", r3_p
 AD = "dropshot/src/api_description.rs"
 RT = "dropshot/src/router.rs"
 _VIS = "            if !endpoint.visible {\n                continue;\n            }\n"
+_ER_ENTRY = ("                    let ErrorResponse { reference, .. } =\n                    // If a response object for this error type has already been\n"
+             "                    // generated, use that; otherwise, we'll generate it now.\n                    error_responses.entry(type_name).or_insert_with(|| {\n")
+_ER_ENTRY_IF_ABSENT = "                    if !error_responses.contains_key(type_name) {\n                        let built = (|| {\n"
+_ER_ENTRY_END = "                        ErrorResponse { name, reference, response }\n                    });\n"
+_ER_ENTRY_END_IF_ABSENT = ("                        ErrorResponse { name, reference, response }\n                        })();\n                        error_responses.insert(type_name, built);\n"
+                           "                    }\n                    let reference = &error_responses[type_name].reference;\n")
 SELFTEST = [
     {"name": "prefix-f6-tags", "kind": "mutant", "revert": "a6255b8", "expect": ["C06.R2"],
      "why": "pre-fix F6: the tag scan lists ad-hoc tags of unpublished endpoints in the document's top-level `tags`"},
@@ -1336,4 +1357,14 @@ SELFTEST = [
     {"name": "error-reference-only-4xx", "kind": "mutant",
      "edits": [(AD, "                    operation.responses.responses.insert(\n                        openapiv3::StatusCode::Range(5),\n                        reference.clone(),\n                    );\n", "")],
      "expect": ["C06.R4"], "why": "5xx responses are no longer documented"},
+    # --- third hardening round: the error-response carrier is found by role (the crate's struct holding a Response and the reference to it),
+    #     "the reference of the entry" is any lookup in the table that is flushed to components.responses
+    {"name": "error-entry-insert-if-absent-then-index", "kind": "benign",
+     "edits": [(AD, _ER_ENTRY, _ER_ENTRY_IF_ABSENT), (AD, _ER_ENTRY_END, _ER_ENTRY_END_IF_ABSENT)],
+     "why": "behaviour-preserving: entry().or_insert_with(f) == `if !contains_key(k) { insert(k, f()) }` followed by `&table[k].reference`"},
+    {"name": "error-entry-reference-fabricated", "kind": "mutant",
+     "edits": [(AD, _ER_ENTRY, _ER_ENTRY_IF_ABSENT), (AD, _ER_ENTRY_END, _ER_ENTRY_END_IF_ABSENT.replace(
+         "let reference = &error_responses[type_name].reference;",
+         "let fabricated = openapiv3::ReferenceOr::<openapiv3::Response>::Reference { reference: format!(\"#/components/responses/{}\", type_name) };\n                    let reference = &fabricated;"))],
+     "expect": ["C06.R4"], "why": "the 4xx/5xx $ref is formatted from the Rust type name instead of being the stored entry's reference: it can name a response that is not in components.responses"},
 ]
